@@ -22,6 +22,9 @@ from common import gz, gnat, glist, gpair, gopt
 import refsym
 
 IMPORTS = 'From SV Require Import Model.Trunc.\n'
+# own shards for the functions GENERATED from the current source (tr/gen_trunc.py -> Gen/TruncGen.v): if that file is
+# missing or does not compile only these shards fail, the ties to the hand model above survive
+IMPORTS_GEN = 'From Coq Require Import QArith.\nFrom SV Require Import Model.Trunc Gen.TruncGen.\n'
 ABSORBS = [None, -1, 0, 1, 'left', 'both', 'right']
 F7_SIG = 'cumulative_cutoff_above_total_weight_keeps_everything'
 UNIVERSE = {
@@ -330,6 +333,26 @@ def g_cm(case, cm):
     return glist([gpair(gz(code[c]), gnat(n)) for c, n in cm])
 
 
+def gq(fr):
+    """an exact rational as a Gallina Q literal"""
+    fr = Fraction(fr)
+    return '(Qmake %s %d%%positive)' % (gz(fr.numerator), fr.denominator)
+
+
+def g_qblocks(case):
+    """list(s.blocks.values()) exactly as the implementation sees it under the stub (values scaled by 2^-j)"""
+    sc = Fraction(1, 2 ** case['scale_exp'])
+    return glist([glist([gq(Fraction(v) * sc) for v in s['s']]) for s in case['sectors']])
+
+
+def gen_select_expr(case, mode, cutoff_float, mb, counts):
+    """generated selection region (Gen/TruncGen.v) on the exact inputs of this call == per-sector counts the
+    implementation kept (None: the call raised)"""
+    want = 'None' if counts is None else gopt(glist([gz(n) for n in counts]))
+    return 'ozl_eqb (gen_svd_truncated_select %s %s %s %s 0%%Z) %s' % (
+        g_qblocks(case), gq(Fraction(cutoff_float)), gz(mode), gz(mb), want)
+
+
 def short(case):
     return {'symmetry': case['symmetry'], 'fermionic': case['fermionic'], 'duals': case['duals'], 'charge': case['charge'],
             'sectors': [((s['c0'], s['c1']), s['s']) for s in case['sectors']], 'scale_exp': case['scale_exp']}
@@ -440,6 +463,7 @@ def run(ctx):
     ncut = 9 if ctx.thorough else 6
     nmb = 5 if ctx.thorough else 3
     exprs, meta, exprs_spec = [], [], []
+    exprs_gen, meta_gen = [], []       # translator tie: generated selection region vs what the implementation keeps
     found = []       # (kind, replay)
     f7_found = []
     dist = {'symmetry': {}, 'fermionic': {}, 'mode': {}, 'sectors_removed': 0, 'real_truncation': 0}
@@ -491,6 +515,11 @@ def run(ctx):
             exprs.append('ocm_eqb (trunc %s %s %s %s %s) %s' % (
                 gz(mode), gz(cut.numerator), gz(cut.denominator), gz(mb), g_secs(case), impl))
             meta.append((ci, mode, cut, mb))
+            if ob is not None or (fails and fails[0][0] == 'raises'):
+                cf = py_cutoff(case, mode, cut) if cut > 0 else float(cut)
+                exprs_gen.append(gen_select_expr(case, mode, cf, mb,
+                                                 None if ob is None else [counts[(s['c0'], s['c1'])] for s in case['sectors']]))
+                meta_gen.append((ci, mode, cut, mb))
             if cut > 0:
                 # the oracle's independent re-statement of the rule must agree with the Coq `trunc` the theorems are about
                 want, _ = spec_counts(case, mode, cut, mb)
@@ -519,6 +548,17 @@ def run(ctx):
                         f7_found.append(rp)
                     else:
                         found.append(('cutoff_monotone', rp))
+        if ci < 12:
+            # an unknown cutoff_mode: KeyError on the power table with a cutoff, irrelevant without one
+            for cf in (0.5, 0.0):
+                mbx = rng.choice([-1, 1, 2])
+                ctx.count()
+                resx, errx = call_trunc(sr, x, table, absorb=None, cutoff=cf, cutoff_mode=7, max_bond=mbx)
+                obx = observe(case, table, resx) if resx is not None else None
+                if resx is None or not isinstance(obx, str):
+                    exprs_gen.append(gen_select_expr(case, 7, cf, mbx, None if resx is None else
+                                                     [obx['counts'][(s['c0'], s['c1'])] for s in case['sectors']]))
+                    meta_gen.append((ci, 7, Fraction(cf), mbx))
         if ci in (2, 3, 4):
             ctx.sample({'matrix': short(case), 'configs': [(m, str(c), b) for (m, c, b) in configs[:4]]})
 
@@ -535,6 +575,8 @@ def run(ctx):
             empty_obs.append({'cutoff': float(cut), 'cutoff_mode': mode, 'max_bond': mb, 'raises': err})
         exprs.append('ocm_eqb (trunc %s %s %s %s %s) %s' % (gz(mode), gz(cut.numerator), gz(cut.denominator), gz(mb), '[]', impl))
         meta.append(('empty', mode, cut, mb))
+        exprs_gen.append(gen_select_expr(empty, mode, float(cut), mb, None if res is None else []))
+        meta_gen.append(('empty', mode, cut, mb))
 
     bad = common.run_cases(ctx, 'trunc', IMPORTS, '', exprs)
     tie_broken = []
@@ -554,8 +596,22 @@ def run(ctx):
     elif bad_s:
         tie_broken.append('the oracle re-statement of the rule disagrees with Model.trunc on %d cases (harness defect)' % len(bad_s))
 
+    bad_g = common.run_cases(ctx, 'gensel', IMPORTS_GEN, '', exprs_gen)
+    if bad_g is None:
+        tie_broken.append('cases.v (Gen.TruncGen.gen_svd_truncated_select vs svd_truncated) did not evaluate')
+    elif bad_g:
+        tie_broken += ['the selection region generated from the source (Gen.TruncGen) disagrees with svd_truncated on case %r'
+                       % (meta_gen[i],) for i in bad_g[:8]]
+        for i in bad_g[:3]:
+            ci, mode, cut, mb = meta_gen[i]
+            if ci != 'empty' and mode != 7 and not found:
+                found.append(('generated_model_disagreement', replay_dict(
+                    cases[ci], mode, cut, mb, 'generated_model_disagreement',
+                    'per-sector counts of svd_truncated differ from Gen.TruncGen.gen_svd_truncated_select')))
+
     # ---- calc_sub_max_bonds directly
     exprs2, meta2 = [], []
+    exprs_gc, meta_gc = [], []         # translator tie: generated calc_sub_max_bonds / argsort
     sizes_list = [tuple(rng.randint(1, 9) for _ in range(rng.randint(1, 6))) for _ in range(500 if ctx.thorough else 150)]
     sizes_list += [(22, 11, 11), (22, 22), (1,), (1, 1, 1, 1), (5, 3, 3), ()]
     pins = {(22, 11, 11): [30], (22, 22): [30], (5, 3, 3): [4, 7]}
@@ -590,6 +646,8 @@ def run(ctx):
                 ctx.nontrivial(('csmb', sizes, mb))
             exprs2.append('ozl_eqb (calc_sub_max_bonds %s %s) %s' % (gs, gz(mb), ggot))
             meta2.append((sizes, mb, 'calc_sub_max_bonds'))
+            exprs_gc.append('ozl_eqb (gen_calc_sub_max_bonds %s %s) %s' % (gs, gz(mb), ggot))
+            meta_gc.append((sizes, mb, 'gen_calc_sub_max_bonds'))
     bad2 = common.run_cases(ctx, 'csmb', IMPORTS, '', exprs2)
     if bad2 is None:
         tie_broken.append('cases.v (Model.calc_sub_max_bonds vs implementation) did not evaluate')
@@ -598,6 +656,25 @@ def run(ctx):
         for i in bad2[:2]:
             found.append(('calc_sub_max_bonds', {'oracle': 'calc_sub_max_bonds_model', 'sizes': list(meta2[i][0]), 'max_bond': meta2[i][1],
                                                  'detail': 'result differs from the exact model (%s)' % meta2[i][2]}))
+
+    n_argsort = 0
+    for _ in range(300 if ctx.thorough else 100):
+        seq_ = [rng.randint(0, 4) for _ in range(rng.randint(0, 8))]
+        ctx.count()
+        exprs_gc.append('ozl_eqb (gen_argsort %s) (Some %s)' % (glist([gz(v) for v in seq_]),
+                                                               glist([gz(v) for v in sr.linalg.argsort(list(seq_))])))
+        meta_gc.append((tuple(seq_), None, 'gen_argsort'))
+        n_argsort += 1
+    bad_gc = common.run_cases(ctx, 'gencsmb', IMPORTS_GEN, '', exprs_gc)
+    if bad_gc is None:
+        tie_broken.append('cases.v (Gen.TruncGen.gen_calc_sub_max_bonds / gen_argsort vs implementation) did not evaluate')
+    elif bad_gc:
+        tie_broken += ['the function generated from the source (Gen.TruncGen.%s) disagrees with the implementation on %r'
+                       % (meta_gc[i][2], meta_gc[i][:2]) for i in bad_gc[:8]]
+        for i in bad_gc[:2]:
+            if meta_gc[i][2] == 'gen_calc_sub_max_bonds':
+                found.append(('calc_sub_max_bonds', {'oracle': 'calc_sub_max_bonds_model', 'sizes': list(meta_gc[i][0]), 'max_bond': meta_gc[i][1],
+                                                     'detail': 'result differs from the function generated from the source (Gen.TruncGen)'}))
 
     # ---- the truncated FACTORS (Model/Truncate.a_svd_truncated) vs svd_truncated under the same exact svd stub
     import tie_truncate
@@ -638,7 +715,10 @@ def run(ctx):
         'branch for every max_bond; absorb options on sampled configurations; calc_sub_max_bonds on random size tuples. '
         'non-trivial = at least two sectors, something kept and something discarded; distinct by (matrix, mode, cutoff, max_bond)')
     ctx.extra['tie'] = {'svd_truncated_cases': len(exprs), 'calc_sub_max_bonds_cases': len(exprs2),
-                        'oracle_rule_vs_trunc_cases': len(exprs_spec)}
+                        'oracle_rule_vs_trunc_cases': len(exprs_spec),
+                        'generated_select_vs_svd_truncated_cases': len(exprs_gen),
+                        'generated_calc_sub_max_bonds_cases': len(exprs_gc) - n_argsort,
+                        'generated_argsort_cases': n_argsort}
     ctx.extra['distribution'] = dist
     ctx.extra['oracle_failures_by_kind'] = seen_kinds
     ctx.extra['observations'] = {
